@@ -100,6 +100,9 @@ func RunProperty(cfg Config) int {
 
 	var names []string
 	for n := range l.Harnesses {
+		if strings.HasSuffix(n, "_Thorough") && cfg.Tier != "thorough" {
+			continue // deep variants run in the thorough tier only
+		}
 		if strings.HasPrefix(n, "Verif_"+cfg.Prop+"_") && (cfg.Only == "" || strings.Contains(n, cfg.Only)) {
 			names = append(names, n)
 		}
